@@ -1655,3 +1655,47 @@ mod tests {
         assert_eq!(term.saved_ctx.cursor_col, 9);
     }
 }
+
+#[cfg(feature = "verif")]
+impl Terminal {
+    pub(crate) fn verif_state(&self) -> crate::verif::TerminalState {
+        let ctx = |c: &SavedCtx| crate::verif::CtxState {
+            col: c.cursor_col,
+            row: c.cursor_row,
+            pen: c.pen,
+            origin_mode: c.origin_mode,
+            auto_wrap_mode: c.auto_wrap_mode,
+        };
+
+        crate::verif::TerminalState {
+            cols: self.cols,
+            rows: self.rows,
+            buffer: self.buffer.verif_state(),
+            other_buffer: self.other_buffer.verif_state(),
+            alternate_active: self.active_buffer_type == BufferType::Alternate,
+            scrollback_limit: self.scrollback_limit,
+            cursor_col: self.cursor.col,
+            cursor_row: self.cursor.row,
+            cursor_visible: self.cursor.visible,
+            pen: self.pen,
+            charsets_drawing: [
+                self.charsets[0] == Charset::Drawing,
+                self.charsets[1] == Charset::Drawing,
+            ],
+            active_charset: self.active_charset,
+            tabs: (&self.tabs).into_iter().copied().collect(),
+            insert_mode: self.insert_mode,
+            origin_mode: self.origin_mode,
+            auto_wrap_mode: self.auto_wrap_mode,
+            new_line_mode: self.new_line_mode,
+            cursor_keys_app_mode: self.cursor_keys_mode == CursorKeysMode::Application,
+            pending_wrap: self.pending_wrap,
+            top_margin: self.top_margin,
+            bottom_margin: self.bottom_margin,
+            saved_ctx: ctx(&self.saved_ctx),
+            alternate_saved_ctx: ctx(&self.alternate_saved_ctx),
+            dirty_lines: self.dirty_lines.verif_flags(),
+            xtwinops: self.xtwinops,
+        }
+    }
+}
